@@ -23,7 +23,7 @@
 (* Rounding = "towardzero" (C division on a negative coefficient, one of    *)
 (* the seeded changes) violates RoundSound.                                 *)
 (***************************************************************************)
-EXTENDS Integers, FiniteSets, TLC
+EXTENDS Integers, FiniteSets, TLC, CPOps, Json, CSV, IOUtils
 
 CONSTANTS N, W, Rounding     \* Rounding: "away" (the code) or "ceil" (ceiling division also for negative coefficients)
 Vars == 1..N
@@ -80,4 +80,20 @@ ClashSound == Entailed({pb1, pb2}, Clash(pb1, pb2))
 PivotEliminated ==
   (pb1.w[x] * pb2.w[x] < 0 /\ Falsified(pb1, x, sigma)) =>
      Clash(RoundToOne(pb1, x, sigma), RoundToOne(pb2, x, sigma)).w[x] = 0
+
+(* ---- the functions the code is compared with (CPOps.tla, CPTrace.tla) are these operations -------- *)
+OpsAgree ==
+  Rounding = "away" =>
+    /\ pb1.w[x] # 0 => LET g == GRound(pb1, x, sigma)  r == RoundToOne(pb1, x, sigma)
+                       IN g.defined => (g.w = r.w /\ g.d = r.d)
+    /\ GClash(pb1, pb2) = Clash(pb1, pb2)
+
+(* ---- spec -> code: every (constraint, pivot, assignment) and every pair of constraints ------------ *)
+EmitFile == IF "VERIF_EMIT" \in DOMAIN IOEnv THEN IOEnv.VERIF_EMIT ELSE "cp_emit.ndjson"
+ZeroPB == [w |-> [v \in Vars |-> 0], d |-> 0]
+EmitOps ==
+  /\ (pb2 = ZeroPB /\ pb1.w[x] # 0 /\ pb1.d >= 1) =>
+        CSVWrite("%1$s", <<ToJson([op |-> "round", w |-> pb1.w, d |-> pb1.d, x |-> x, sigma |-> sigma])>>, EmitFile)
+  /\ (x = 1 /\ sigma = [v \in Vars |-> 0]) =>
+        CSVWrite("%1$s", <<ToJson([op |-> "clash", w |-> pb1.w, d |-> pb1.d, w2 |-> pb2.w, d2 |-> pb2.d])>>, EmitFile)
 =============================================================================
